@@ -121,7 +121,8 @@ func c06Case(t *rapid.T, ev *evProp, si *SuiteInfo) {
 const c06Rule = "case = (pairing suite, scalars a,b from edge classes, P,P2 in G1 and Q,Q2 in G2 from {O,B,-B,k*B,a*B,Pick,Hash,decoded,sums/doubles/multiples with projective internals}); " +
 	"9 pairing identities (bilinearity in both arguments, additivity, negation, identity arguments, order q) + non-degeneracy asserted by Equal and identical GT encodings; " +
 	"ValidatePairing is compared with Pair(..).Equal(Pair(..)) on one of 11 quadruple shapes (equal by construction, unrelated, with identity arguments, negated). " +
-	"non-trivial = an identity/edge operand or scalar, a non-normalised operand, or a ValidatePairing quadruple that is expected true; distinct = distinct rendered case"
+	"non-trivial = an identity/edge operand or scalar, a non-normalised operand, or a ValidatePairing quadruple that is expected true; distinct = distinct rendered case" +
+	" Added after the sensitivity rounds: GT.Base()=e(B1,B2) before and after in-place updates of values obtained from Base(); results of identity pairings are updated in place and e(O,Q)=O_T plus the constants of G1/G2/GT are re-checked."
 
 func TestC06_Pairing(t *testing.T) {
 	ev := evFor("C06")
